@@ -25,7 +25,7 @@ ASSUMPTIONS = [
     "structured arrays are packed and their multi-byte fields share one declared order (precondition of the property)",
     "NumPy's dtype objects (descr, newbyteorder, byteorder, fields) are the real library's; array storage is modelled by vf.symnp/vf.symrec (conformance pass)",
 ]
-BOUNDS = {"quick": {"fields": "1..3 drawn from {i4, f8, i1, S3, f4(2,)}", "shape": "(), (2,), (1,2)"},
+BOUNDS = {"quick": {"fields": "1..3 drawn from {i4, f8, i1, S3, f4(2,)}", "shape": "(), (2,), (1,2), (0,), (0,2)"},
           "thorough": {"fields": "1..3 drawn from {i4, f8, i2, u1, S3, U2, f4(2,), i8(2,2)}", "shape": "(), (2,), (1,2)"}}
 EXPLORE_OPTS = {"max_paths": 20000}
 TIER_OPTS = {"quick": {"time_budget": 300}, "thorough": {"time_budget": 1500}}
@@ -50,7 +50,7 @@ def configs(tier):
                 continue
             if sp != "|" and not KINDS[k][2]:
                 continue
-            for shape in ((), (2,), (1, 2)):
+            for shape in ((), (2,), (1, 2), (0,), (0, 2)):
                 out.append(("plain", k, sp, shape))
     # structured: all tuples of 1..2 kinds (quick) / 1..3 (thorough), each order
     lens = (1, 2) if q else (1, 2, 3)
@@ -66,6 +66,9 @@ def configs(tier):
                     shapes = ((2,),) if ks[0] != ks[1] else ((),)
                 for shape in shapes:
                     out.append(("struct", ks, order, shape))
+    # empty tables
+    out.append(("struct", ("i4", "f8"), ">", (0,)))
+    out.append(("struct", ("i4", "S3"), "<", (0,)))
     out.append(("descr", ("i4", "S3", "f4s"), ">", (2,)))
     return out
 
